@@ -380,6 +380,158 @@ fn run_config(h: &mut Harness, c: &Config) -> Result<(Vec<String>, Value), Strin
     Ok((problems, detail))
 }
 
+/// (kind, COUNT, index of the call during which the sweeper holds the lock)
+fn locked_cases(thorough: bool) -> Vec<(usize, u32, usize)> {
+    let mut out = Vec::new();
+    for kind in 0..KINDS.len() {
+        for (count, calls) in [(1u32, 20usize), (3, 8), (10, 3)] {
+            for k in 0..calls {
+                if !thorough && !(kind == 0 || k < 2) {
+                    continue;
+                }
+                out.push((kind, count, k));
+            }
+        }
+    }
+    out
+}
+
+fn parse_scan(r: &R) -> Option<(String, Vec<String>)> {
+    match r {
+        R::Arr(v) if v.len() == 2 => {
+            let next = match &v[0] {
+                R::Bulk(b) => String::from_utf8_lossy(b).to_string(),
+                R::Int(i) => i.to_string(),
+                _ => return None,
+            };
+            let items = match &v[1] {
+                R::Arr(x) => x.iter().map(|e| match e {
+                    R::Bulk(b) => String::from_utf8_lossy(b).to_string(),
+                    other => resp::show(other),
+                }).collect(),
+                R::NilArr => vec![],
+                _ => return None,
+            };
+            Some((next, items))
+        }
+        _ => None,
+    }
+}
+
+/// One call of the iteration is made while the expiry sweeper holds the write lock of a shard with permanent keys in it
+/// (it is parked at SWEEP_LOCKED, about to delete a key whose deadline passed, and released 30 ms of real time after
+/// the call was sent). The call has to wait for the lock and return the shard's keys as usual: a seeded SCAN that used
+/// `try_read` and skipped a shard it could not lock at once lost every key of that shard from the call's range.
+fn run_locked(h: &mut Harness, kind_i: usize, count: u32, at_call: usize) -> Result<(Vec<String>, Value), String> {
+    use crate::{gate, vtime};
+    use ferrous::verif_hooks::SWEEP_LOCKED;
+    h.aux_call(&["FLUSHALL"])?;
+    let kind = KINDS[kind_i];
+    let mut present: BTreeSet<String> = BASE.iter().map(|s| s.to_string()).collect();
+    for i in 0..12 {
+        present.insert(format!("x{:02}", i));
+    }
+    for e in present.iter() {
+        let r = match kind {
+            "SCAN" => h.aux_call(&["SET", e.as_str(), "v"])?,
+            "HSCAN" => h.aux_call(&["HSET", "coll", e.as_str(), "v"])?,
+            "SSCAN" => h.aux_call(&["SADD", "coll", e.as_str()])?,
+            _ => h.aux_call(&["ZADD", "coll", zscore_of(e), e.as_str()])?,
+        };
+        if r.is_err() {
+            return Err(format!("seeding {} failed: {}", e, resp::show(&r)));
+        }
+    }
+    // a key that will expire, in the shard of a permanent key (SCAN: every shard that holds one of the 17 gets its turn
+    // over the cases through the call index; the collection commands: the shard of the collection)
+    let storage = h.srv.as_ref().unwrap().h.storage.clone();
+    let shard_mate: Vec<u8> = if kind == "SCAN" { present.iter().nth(at_call % present.len()).unwrap().clone().into_bytes() } else { b"coll".to_vec() };
+    let want_shard = storage.verif_shard_of(&shard_mate);
+    let victim = (0..10_000).map(|i| format!("t{}", i)).find(|n| storage.verif_shard_of(n.as_bytes()) == want_shard).ok_or("no victim name")?;
+    let mut returned: Vec<String> = Vec::new();
+    let mut cursor = "0".to_string();
+    let mut calls = 0usize;
+    let mut problems: Vec<String> = Vec::new();
+    let mut trace: Vec<String> = Vec::new();
+    let mut held = false;
+    loop {
+        let mut args: Vec<String> = if kind == "SCAN" { vec!["SCAN".into(), cursor.clone()] } else { vec![kind.into(), "coll".into(), cursor.clone()] };
+        args.push("COUNT".into());
+        args.push(count.to_string());
+        let r = if calls == at_call {
+            h.aux_call(&["SET", victim.as_str(), "v", "PX", "5"])?;
+            gate::set_park_background_only(true);
+            gate::set_park_points(&[SWEEP_LOCKED]);
+            let mut parked = false;
+            for _ in 0..3 {
+                match vtime::next_wake() {
+                    Some(w) => {
+                        vtime::advance_to(w.max(vtime::mono_ns() + 6_000_000)).map_err(|_| "settle timeout waiting for the sweeper".to_string())?;
+                    }
+                    None => break,
+                }
+                if gate::parked().iter().any(|p| p.point == SWEEP_LOCKED) {
+                    parked = true;
+                    break;
+                }
+            }
+            if !parked {
+                gate::set_park_points(&[]);
+                gate::release_all();
+                return Err("the sweeper never took the shard lock".into());
+            }
+            held = true;
+            let releaser = std::thread::Builder::new().name("releaser".into()).spawn(|| {
+                vtime::mark_free_running();
+                vtime::real_sleep_us(30_000);
+                gate::set_park_points(&[]);
+                gate::release_all();
+            }).map_err(|e| format!("spawn: {}", e))?;
+            let r = h.aux_call(&args);
+            let _ = releaser.join();
+            gate::set_park_points(&[]);
+            gate::release_all();
+            vtime::settle().map_err(|_| "settle timeout after the sweeper was released".to_string())?;
+            trace.push(format!("  (this call was made while the sweeper held the write lock of shard {} to delete {})", want_shard, victim));
+            r?
+        } else {
+            h.aux_call(&args)?
+        };
+        calls += 1;
+        let (next, items) = match parse_scan(&r) {
+            Some(x) => x,
+            None => {
+                problems.push(format!("reply-{}", resp::class(&r)));
+                break;
+            }
+        };
+        let elems: Vec<String> = match kind {
+            "HSCAN" | "ZSCAN" => items.chunks(2).map(|p| p[0].clone()).collect(),
+            _ => items.clone(),
+        };
+        trace.push(format!("{} -> cursor {} [{}]", args.join(" "), next, elems.join(" ")));
+        returned.extend(elems);
+        if next == "0" {
+            break;
+        }
+        cursor = next;
+        if calls >= 4 * (present.len() + 3) + 8 {
+            problems.push("does-not-terminate".into());
+            break;
+        }
+    }
+    let ret: BTreeSet<String> = returned.iter().cloned().collect();
+    if present.iter().any(|e| !ret.contains(e)) {
+        problems.push("missed-element-while-the-sweeper-held-its-shard".into());
+    }
+    if ret.iter().any(|e| !present.contains(e) && *e != victim) {
+        problems.push("returned-element-that-never-existed".into());
+    }
+    let detail = json!({"kind": kind, "count": count, "lock_held_during_call": at_call + 1, "lock_was_held": held, "initial": present.iter().cloned().collect::<Vec<_>>(),
+        "expiring_key": victim, "missing": present.iter().filter(|e| !ret.contains(*e)).cloned().collect::<Vec<_>>(), "trace": trace, "calls": calls});
+    Ok((problems, detail))
+}
+
 pub fn handle_factory() -> impl FnMut(&str, &Value, &mut WorkerIo) -> (Value, bool) {
     let mut h = Harness::new(SrvOpts::default());
     move |tier: &str, task: &Value, io: &mut WorkerIo| {
@@ -396,7 +548,49 @@ pub fn handle_factory() -> impl FnMut(&str, &Value, &mut WorkerIo) -> (Value, bo
                     }, false);
                 }
             }
+            if let Some(c) = r["locked_case"].as_array() {
+                let _ = h.ensure();
+                let (kind, count, k) = (c[0].as_u64().unwrap_or(0) as usize, c[1].as_u64().unwrap_or(1) as u32, c[2].as_u64().unwrap_or(0) as usize);
+                return (match run_locked(&mut h, kind, count, k) {
+                    Ok((p, d)) => json!({"problems": p, "detail": d}),
+                    Err(e) => json!({"machinery_error": e}),
+                }, false);
+            }
             return (json!({"note": "see the case"}), false);
+        }
+        if let Some(l) = task.get("locked") {
+            if let Err(e) = h.ensure() {
+                return (json!({"locked_recs": [], "errors": [e]}), false);
+            }
+            let mut recs = Vec::new();
+            let mut errors = Vec::new();
+            let mut held = 0u64;
+            let mut calls = 0u64;
+            let cases: Vec<(usize, u32, usize)> = l.as_array().map(|a| a.iter().map(|c| (c[0].as_u64().unwrap_or(0) as usize, c[1].as_u64().unwrap_or(1) as u32, c[2].as_u64().unwrap_or(0) as usize)).collect()).unwrap_or_default();
+            for (kind, count, k) in cases.iter().cloned() {
+                io.announce_case(json!({"locked": [kind, count, k]}));
+                match run_locked(&mut h, kind, count, k) {
+                    Ok((p, d)) => {
+                        calls += d["calls"].as_u64().unwrap_or(0);
+                        if d["lock_was_held"].as_bool().unwrap_or(false) {
+                            held += 1;
+                        }
+                        if !p.is_empty() || recs.is_empty() {
+                            recs.push(json!({"case": [kind, count, k], "problems": p, "detail": d}));
+                        }
+                    }
+                    Err(e) => {
+                        errors.push(format!("locked case {:?}: {}", (kind, count, k), e));
+                        // leave no parked thread and no half-read reply behind
+                        crate::gate::set_park_points(&[]);
+                        crate::gate::release_all();
+                        h.srv = None;
+                        h.aux = None;
+                        let _ = h.ensure();
+                    }
+                }
+            }
+            return (json!({"locked_recs": recs, "errors": errors, "held": held, "calls": calls, "n": cases.len()}), false);
         }
         let (a, b) = (task["range"][0].as_u64().unwrap_or(0) as usize, task["range"][1].as_u64().unwrap_or(0) as usize);
         let mut recs = Vec::new();
@@ -437,7 +631,14 @@ pub fn parent(tier: &str) -> i32 {
         tasks.push(json!({"range": [i, (i + chunk).min(all.len())], "thorough": thorough}));
         i += chunk;
     }
+    let lcases = locked_cases(thorough);
+    for ch in lcases.chunks((lcases.len() / 14).max(1)) {
+        tasks.push(json!({"locked": ch.iter().map(|(a, b, c)| json!([a, b, c])).collect::<Vec<_>>()}));
+    }
     let out = pool.map(tasks, 0);
+    let mut locked_run = 0u64;
+    let mut locked_held = 0u64;
+    let mut locked_sample = Value::Null;
     let mut iterations = 0u64;
     let mut calls = 0u64;
     let mut samples = Vec::new();
@@ -450,6 +651,29 @@ pub fn parent(tier: &str) -> i32 {
                 }
                 iterations += v["n"].as_u64().unwrap_or(0);
                 calls += v["calls"].as_u64().unwrap_or(0);
+                if v.get("locked_recs").is_some() {
+                    locked_run += v["n"].as_u64().unwrap_or(0);
+                    locked_held += v["held"].as_u64().unwrap_or(0);
+                    for r in v["locked_recs"].as_array().cloned().unwrap_or_default() {
+                        let problems: Vec<String> = r["problems"].as_array().map(|a| a.iter().map(|s| s.as_str().unwrap_or("").to_string()).collect()).unwrap_or_default();
+                        if problems.is_empty() {
+                            if locked_sample.is_null() {
+                                locked_sample = r["detail"].clone();
+                            }
+                            continue;
+                        }
+                        with_problem += 1;
+                        let kind = KINDS[r["case"][0].as_u64().unwrap_or(0) as usize];
+                        for p in problems {
+                            report.deviations.push(Deviation {
+                                property: "C19".into(),
+                                sig: format!("C19|{}|{}|sweeper-holds-shard-lock", kind, p),
+                                replay: json!({"kind": "scan-locked", "locked_case": r["case"], "thorough": thorough, "detail": r["detail"]}),
+                            });
+                        }
+                    }
+                    continue;
+                }
                 for r in v["recs"].as_array().cloned().unwrap_or_default() {
                     let idx = r["i"].as_u64().unwrap_or(0) as usize;
                     let c = &all[idx];
@@ -477,9 +701,14 @@ pub fn parent(tier: &str) -> i32 {
     if samples.is_empty() {
         samples.push(json!({"note": "no sample"}));
     }
-    println!("  c19: iterations={} scan-calls={} iterations-with-a-problem={}", iterations, calls, with_problem);
+    println!("  c19: iterations={} scan-calls={} iterations-with-a-problem={} (of them {} with one call made while the sweeper held a shard's write lock; held in {})", iterations, calls, with_problem, locked_run, locked_held);
+    if locked_run > 0 && locked_held < locked_run / 2 {
+        report.machinery_errors.push(format!("the sweeper held a shard lock in only {} of {} lock-held iterations", locked_held, locked_run));
+    }
     report.coverage = json!({
         "states": iterations.max(1), "transitions": calls.max(1), "traces_validated_against_impl": iterations, "samples": samples, "exhaustive": true,
+        "iterations_with_a_call_made_while_the_sweeper_held_a_shard_write_lock": {"run": locked_run, "lock_really_held": locked_held, "sample": locked_sample,
+            "what": "{SCAN, HSCAN, SSCAN, ZSCAN} x COUNT {1,3,10} x the index of the call (every call of the iteration; quick: every call for SCAN, the first two for the others): before that call a key with a 5 ms deadline is written into the shard of a permanent key (SCAN: the shard of the (index mod 17)-th key; collections: the shard of the collection), the clock is moved to the sweeper's next pass, the sweeper is parked at the hook point SWEEP_LOCKED holding that shard's write lock, the call is sent, and the sweeper is released 30 ms of real time later. The whole iteration must still return all 17 permanent elements."},
         "explanation": "states = complete cursor iterations (one per configuration), transitions = scan calls. Configurations enumerated completely: {SCAN, HSCAN, SSCAN, ZSCAN} x initial element sets (all subsets of {a..e}; quick: those with >= 2 elements; plus one 17-element collection that leaves the small-collection fast path; the full sets also with every element name behind a common 40-byte prefix) x COUNT {1,2,10} (thorough {1,2,3,10}) x MATCH {none, [a-c]} (thorough also *, ?) x TYPE {none, string} (thorough also list) x placements of 0 or 1 (thorough: up to 2) modifications (add an element sorting first/middle/last; delete the smallest/middle/largest present) in any of the first 6 gaps between calls. Oracle: elements present from before the first call to after the last and passing the filters are all returned; everything returned existed at some time and passes the filters; the iteration reaches cursor 0 within 4 x (elements + 2) + 8 calls.",
     });
     report.assumptions = vec!["MATCH semantics = Redis stringmatchlen (the reference port used in C01); TYPE filter by the key's type".into()];
